@@ -160,8 +160,10 @@ func (d *Dumper) ValueLit(in any, optFns ...ValueLitOptFn) string {
 	switch tpe.Kind() {
 	case reflect.Ptr:
 		kind := rv.Elem().Kind()
-		if _, ok := basicKinds[kind]; ok {
-			return fmt.Sprintf("func(v %s) *%s { return &v }(%s)", kind, kind, d.ValueLit(rv.Elem(), optFns...))
+		if _, ok := basicKinds[kind]; ok || kind == reflect.String {
+			// should use the type of elem, which could be named type
+			elemType := d.ReflectTypeLit(rv.Elem().Type())
+			return fmt.Sprintf("func(v %s) *%s { return &v }(%s)", elemType, elemType, d.ValueLit(rv.Elem(), optFns...))
 		}
 		return fmt.Sprintf("&(%s)", d.ValueLit(rv.Elem(), optFns...))
 	case reflect.Struct:
@@ -251,7 +253,7 @@ func (d *Dumper) ValueLit(in any, optFns ...ValueLitOptFn) string {
 		return buf.String()
 	case reflect.Int, reflect.Int8, reflect.Int16, reflect.Int64:
 		return fmt.Sprintf("%d", rv.Int())
-	case reflect.Uint, reflect.Uint16, reflect.Uint32, reflect.Uint64, reflect.Uint8:
+	case reflect.Uint, reflect.Uint16, reflect.Uint32, reflect.Uint64, reflect.Uint8, reflect.Uintptr:
 		return fmt.Sprintf("%d", rv.Uint())
 	case reflect.Int32:
 		if b, ok := rv.Interface().(rune); ok {
